@@ -70,7 +70,7 @@ def _parse_sub(txt, path, ln):
 
 
 def _parse_opts(sec, path):
-    o = {'rules': [], 'subs': [], 'sigsubs': [], 'ret': None, 'attrs': [], 'spec': [], 'loops': {}, 'loopsubs': {},
+    o = {'rules': [], 'subs': [], 'sigsubs': [], 'ret': None, 'attrs': [], 'spec': [], 'loops': {}, 'loopsubs': {}, 'loopiters': {},
          'keep': None, 'impl': None}
     for a in sec.args[2:] if sec.kind == 'fn' else sec.args[3:]:
         if a.startswith('impl='):
@@ -105,6 +105,9 @@ def _parse_opts(sec, path):
             o['attrs'].append(val)
         elif key == 'spec':
             block = o['spec']
+        elif key.startswith('loopiter'):
+            n = int(key.split()[1])
+            o['loopiters'][n] = val
         elif key.startswith('loopsub'):
             n = int(key.split()[1])
             o['loopsubs'].setdefault(n, []).append(_parse_sub(val, path, ln))
@@ -219,9 +222,9 @@ def gen_fn(g, repo, sec, mode):
         for n, block in o['loops'].items():
             if n < 1 or n > len(loops):
                 raise GenError('%s: loop %d not found (fn has %d loops): sidecar invariant lost its anchor' % (what, n, len(loops)))
-        for n, subs in o['loopsubs'].items():
+        for n, subs in list(o['loopsubs'].items()) + list(o['loopiters'].items()):
             if n < 1 or n > len(loops):
-                raise GenError('%s: loopsub %d: no such loop' % (what, n))
+                raise GenError('%s: loopsub/loopiter %d: no such loop' % (what, n))
     # apply from the last loop to the first so positions stay valid
     pieces = []
     tail_pos = len(body)
@@ -230,6 +233,23 @@ def gen_fn(g, repo, sec, mode):
         kw_start, br, kw = loops[idx - 1]
         hdr = body[kw_start:br]
         if mode == 'verus':
+            if idx in o['loopiters']:
+                # R12: name the ghost iterator: `for PAT in EXPR` -> `for PAT in NAME: EXPR` (formatting-insensitive)
+                hm = mask(hdr)
+                depth, pos_in = 0, -1
+                for k in range(len(hm)):
+                    ch = hm[k]
+                    if ch in '([{':
+                        depth += 1
+                    elif ch in ')]}':
+                        depth -= 1
+                    elif depth == 0 and hm[k:k + 2] == 'in' and (k == 0 or not (hm[k - 1].isalnum() or hm[k - 1] == '_')) and (k + 2 >= len(hm) or not (hm[k + 2].isalnum() or hm[k + 2] == '_')) and k > 3:
+                        pos_in = k
+                        break
+                if kw != 'for' or pos_in < 0:
+                    raise GenError('%s: loopiter %d: loop %d is not a `for .. in ..` loop' % (what, idx, idx))
+                hdr = hdr[:pos_in + 2] + ' ' + o['loopiters'][idx] + ':' + hdr[pos_in + 2:]
+                log.append(('R12', 'loop %d: ghost iterator named %s' % (idx, o['loopiters'][idx])))
             for pat, rep in o['loopsubs'].get(idx, []):
                 hdr2, n = re.subn(pat, rep, hdr)
                 if n == 0:
